@@ -7,7 +7,7 @@ import (
 	"reflect"
 	"runtime"
 	"runtime/debug"
-	"sort"
+	"slices"
 	"strings"
 	"sync"
 	"sync/atomic"
@@ -80,7 +80,7 @@ func c22Distinct(stats []*c22Stat) int64 {
 				all = append(all, s.buckets[b]...)
 				s.buckets[b] = nil
 			}
-			sort.Slice(all, func(i, j int) bool { return all[i] < all[j] })
+			slices.Sort(all)
 			var d int64
 			for i := range all {
 				if i == 0 || all[i] != all[i-1] {
@@ -152,7 +152,7 @@ func TestVerifC22(t *testing.T) {
 	r := ev.Start(t, "C22")
 	defer r.Finish()
 	th := r.Thorough()
-	defer debug.SetGCPercent(debug.SetGCPercent(400))
+	defer debug.SetGCPercent(debug.SetGCPercent(200))
 
 	if rf := r.Replay(); rf != nil {
 		var pl c22Replay
